@@ -32,7 +32,7 @@ def run(chk):
     qk, dk, mk = gpcases.qs_kernels(), gpcases.dense_kernels(), gpcases.means(rng)
     exprs, expect, corr_bad, oracle_bad = [], [], [], []
     hist, distinct, maxdev = {}, set(), 0.0
-    shapes = [None, (), (3,), (2, 3)]
+    shapes = [None, (), (3,), (2, 3), (1,), (1, 1)]   # incl. unit-length sample axes
     ci = 0
     for n in ([1, 3, 6] if quick else [1, 2, 4, 7, 11]):
         for fam in ("qs", "dense"):
@@ -81,13 +81,15 @@ def run(chk):
                             expect.append((info, s1.reshape(c, n) if shp is not None else s1.reshape(1, n)))
                         distinct.add((sname, pname, str(shp), kname, n))
                 # triangular product and solve are mutually inverse on vectors, matrices, higher rank
-                for tail in ([(), (2,), (2, 2)] if sname == "quasisep" else [(), (2,)]):   # the property claims vectors and matrices
+                for tail in ([(), (2,), (1,), (2, 2)] if sname == "quasisep" else [(), (2,), (1,)]):   # the property claims vectors and matrices
                     v = rng.normal(size=(n,) + tail)
                     a = np.asarray(gp0.solver.solve_triangular(gp0.solver.dot_triangular(jnp.asarray(v))))
                     b = np.asarray(gp0.solver.dot_triangular(gp0.solver.solve_triangular(jnp.asarray(v))))
                     for op, got in (("solve(dot(v))", a), ("dot(solve(v))", b)):
-                        ok, dv = close(got, v, 1e-8)
-                        if not ok or got.shape != v.shape:
+                        ok = got.shape == v.shape
+                        if ok:
+                            ok, dv = close(got, v, 1e-8)
+                        if not ok:
                             oracle_bad.append(dict(op=op, kernel=kname, solver=sname, n=n, rank=len(tail) + 1,
                                                    expected=v.tolist(), observed=got.tolist()))
             # z does not depend on kernel / noise / mean / solver: recover it from two different models
@@ -108,7 +110,7 @@ def run(chk):
             corr_bad.append(dict(info, model=mv, impl=g.ravel().tolist(), dev=dv))
     chk.cov["evaluations"] = len(exprs) + sum(hist.values())
     chk.cov["distinct_nontrivial"] = len(distinct)
-    chk.cov["rule"] = ("prior and conditioned processes x {direct, quasisep} x sample shapes {None, (), (3,), (2,3)} x rotating kernels/noise/means/sizes; "
+    chk.cov["rule"] = ("prior and conditioned processes x {direct, quasisep} x sample shapes {None, (), (3,), (2,3), (1,), (1,1)} x rotating kernels/noise/means/sizes; "
                        "draw = mean + L z with z = jax.random.normal(key, (N,)+shape) and L = numpy Cholesky of the covariance; determinism; "
                        "dot/solve mutually inverse for rank 1-3; z recovered from two unrelated models; distinct = (solver, process, shape, kernel, n)")
     chk.cov["input_histogram"] = hist
